@@ -264,7 +264,7 @@ func Gen(rng *rand.Rand, pf Profile) *Plan {
 	mfs := [2][]int64{}
 	hts := [2][]int64{} // -1 = never announced
 	for e := 0; e < 2; e++ {
-		cls := pick(rng, "auto", "auto", "zero", "one", "tiny", "tiny", "default", "large", "large")
+		cls := pick(rng, "auto", "auto", "zero", "one", "tiny", "tiny", "default", "large", "large", "connlimited", "connlimited")
 		if cls == "zero" && nPh < 2 {
 			nPh = 2
 		}
@@ -292,6 +292,10 @@ func Gen(rng *rand.Rand, pf Profile) *Plan {
 			v = []int64{100, 100, int64(2 + rng.Intn(2000))}[rng.Intn(3)]
 		case "default":
 			v = 65535
+		case "connlimited":
+			// stream windows ample from the start (the final ample-credit step then grants nothing
+			// per stream); only the connection window, opened by stream-0 WINDOW_UPDATEs alone, limits
+			v = 1 << 30
 		case "large":
 			v = 1 << 20
 			if rng.Intn(3) == 0 {
@@ -322,7 +326,7 @@ func Gen(rng *rand.Rand, pf Profile) *Plan {
 				p.addChange(ph, Change{E: e, ID: http2.SettingInitialWindowSize, Val: uint32(nv)}, nPh)
 				v = nv
 				raise = true
-			} else if chg < lim {
+			} else if chg < lim && p.WinClass[e] != "connlimited" {
 				var nv int64
 				if rng.Intn(2) == 0 {
 					nv = v*2 + int64(rng.Intn(70000))
@@ -432,8 +436,20 @@ func Gen(rng *rand.Rand, pf Profile) *Plan {
 		if rng.Intn(6) == 0 {
 			n += 10 + rng.Intn(20)
 		}
+		// toward a connection-window-limited receiver: enough full-size frames to exhaust 65 535
+		// with a positive remainder (65 535 = 3 x 16 384 + 16 383)
+		heavy := p.WinClass[1-e] == "connlimited"
+		if heavy {
+			n = 4 + rng.Intn(8)
+			if budget < 262144/K {
+				budget = 262144 / K
+			}
+		}
 		for i := 0; i < n && budget >= 0; i++ {
 			sz := dataSize(rng)
+			if heavy && rng.Intn(10) < 7 {
+				sz = 16384
+			}
 			if p.BigFrames[e] && rng.Intn(6) == 0 {
 				sz = 16385 + rng.Intn(16000)
 			}
@@ -901,6 +917,15 @@ func Gen(rng *rand.Rand, pf Profile) *Plan {
 					st.Inc = uint32(16384 - 200 + rng.Intn(400))
 				case "huge":
 					st.Inc = uint32(1<<20 + rng.Intn(1<<26))
+				}
+				if p.WinClass[x] == "connlimited" {
+					st.S = 0 // connection-level credit only
+					if st.Inc > 70000 {
+						st.Inc = uint32(1 + rng.Intn(40000))
+					}
+					if rng.Intn(3) == 0 {
+						st.Act = "connfit" // exactly what is missing: all but one byte, then one byte
+					}
 				}
 				steps = append(steps, st)
 			}
